@@ -18,11 +18,16 @@ RULE = ("generated units over all four control/calibration presence combinations
         "cpp.compile (Model) and cpp.compile_ekf; every unit is compiled with g++ and run at dyadic points with inputs set through the "
         "named option fields and outputs read through the named accessors; every function body is parsed back into a program and checked "
         "in Lean (WellScoped + exact agreement with the definition / with Lean's own derivative); distinct by (definition, config, point); "
-        "non-trivial = >=2 states whose sort order differs from declaration order, or a rectangular Jacobian, or control/calibration present")
+        "non-trivial = >=2 states whose sort order differs from declaration order, or a rectangular Jacobian, or control/calibration present; "
+        "boundary noises (fixed inputs): filters with 1-, 2- and 3-reading sensors in which some or all readings have a configured noise of "
+        "exactly zero (0, 0.0, -0.0: a fully trusted reading) next to non-zero ones, and a control with zero process noise, with and without "
+        "control/calibration, CSE on and off - every noise-covariance entry must equal the configured value by name")
 NOTE = ["'compiles' = exit status of g++ -std=c++20 against the Eigen stand-in (real Eigen/clang are absent)",
         "translator: generated source text -> function bodies -> Programs (cparse.py); obligations: checkprog / checkjac in the Lean driver at "
         "4 rational points per block (randomised identity test) + single-assignment/ordering (WellScoped)",
-        "oracle: sympy evaluation / sympy diff by name"]
+        "oracle: sympy evaluation / sympy diff by name",
+        "zero-noise stream: the configured numbers themselves are the oracle (diagonal entry of a reading/control = its configured noise, 0 "
+        "stays 0; off-diagonal 0); counters zero_noise_reading / zero_noise_control / zero_noise_unit"]
 PARTIAL = ["g++ and the stand-in instead of clang+Eigen; ccode printer outside the model"]
 
 
@@ -52,7 +57,7 @@ def mat_from(out, tag, r, c):
     return [[rh.bitsf(out[f"{tag}.{i}.{j}"]) for j in range(c)] for i in range(r)]
 
 
-def check_unit(ctx, drv, pending, d, process, sensor, pts, exe, cfgdesc):
+def check_unit(ctx, drv, pending, d, process, sensor, pts, exe, cfgdesc, noise_tag=""):
     Ls, Lc, Lk = eh.names_of(d)
     core.set_tolerance(d.transcend)
     um = {s.name: e for s, e in d.state_model.items()}
@@ -105,7 +110,7 @@ def check_unit(ctx, drv, pending, d, process, sensor, pts, exe, cfgdesc):
                                        ("M", len(Lc), len(Lc), [[process[a] if a == b else F(0) for b in Lc] for a in Lc])):
             gm = mat_from(out, tag, rows, cols)
             if rows and cols and not eh.mat_close(gm, wantm):
-                ctx.fail(f"cpp-{tag}", f"generated {tag} = {gm} differs from {[[float(x) for x in r] for r in wantm]} (rows/cols in name order)", case)
+                ctx.fail(f"cpp-{tag}" + (noise_tag if tag == "M" else ""), f"generated {tag} = {gm} differs from {[[float(x) for x in r] for r in wantm]} (rows/cols in name order)", case)
     k = 1 + len(pts)
     for (key, pt, P, z), out in zip(zs, outs[k:]):
         rd = d.sensors[key]
@@ -124,7 +129,7 @@ def check_unit(ctx, drv, pending, d, process, sensor, pts, exe, cfgdesc):
             ctx.fail("cpp-H:" + ("rect" if len(Lr) != n else "square"), f"generated sensor Jacobian {H} differs from the partial derivatives by name", case)
         Q = mat_from(out, "Q", len(Lr), len(Lr))
         if not eh.mat_close(Q, [[sensor[key][a] if a == b else F(0) for b in Lr] for a in Lr]):
-            ctx.fail("cpp-Q", f"generated sensor noise {Q} differs from the per-reading noise by name", case)
+            ctx.fail("cpp-Q" + noise_tag, f"generated sensor noise {Q} differs from the per-reading noise by name", case)
 
 
 def translator_obligations(ctx, drv, pending, d, ginfo, process, sensor, cfgdesc):
@@ -251,6 +256,81 @@ def units(ctx):
     return out
 
 
+def zero_noise_units():
+    """FIXED filters whose configured noises include exact zeros (a reading that is trusted completely, a control applied exactly):
+    (definition, process noise, sensor noise, calibration values, points, cse).  The numbers are handed to the generator as they are
+    written here (int 0, 0.0, -0.0, ordinary floats)."""
+    dt = sympy.Symbol("dt")
+    out = []
+    # control + calibration, declaration order differs from name order, sensors of 2 / 1 / 3 readings
+    x, y, v, a, w, b = sympy.symbols("x y v a w b")
+    d = gen.Definition(dt, [y, x, v], [w, a], [b],
+                       {x: x + v * dt + b, y: y + dt * w + a / 4, v: v + a * dt - x * y / 8},
+                       {"gps": {"py": y * y + b + v, "px": x * y + 2 * x},
+                        "odom": {"speed": v * v + 3 * v + x},
+                        "imu": {"r2": x + 2 * y, "r0": y - v + b, "r1": v * x + 3 * v}})
+    process = {"a": 0.25, "w": 0.0}
+    sensor = {"gps": {"px": 0.5, "py": 0.0}, "odom": {"speed": 0}, "imu": {"r0": -0.0, "r1": 0.375, "r2": 0.0}}
+    cal = {"b": F(3, 8)}
+    pts = [{"dt": F(1, 8), "cal": cal, "control": {"a": F(1, 2), "w": F(-3, 4)}, "state": {"x": F(5, 4), "y": F(-1, 2), "v": F(3, 2)}},
+           {"dt": F(0), "cal": cal, "control": {"a": F(-2), "w": F(1, 4)}, "state": {"x": F(-3, 4), "y": F(2), "v": F(1, 4)}}]
+    out.append((d, process, sensor, cal, pts, True))
+    # neither control nor calibration, every reading of every sensor has zero noise, CSE off
+    p, q = sympy.symbols("p q")
+    d = gen.Definition(dt, [q, p], [], [], {p: p + dt * q, q: q - dt * p / 2},
+                       {"solo": {"only": p * q + q}, "pair": {"second": p - 2 * q, "first": p * p + q}})
+    sensor = {"solo": {"only": 0.0}, "pair": {"first": 0, "second": 0.0}}
+    pts = [{"dt": F(1, 4), "cal": {}, "control": {}, "state": {"p": F(3, 2), "q": F(-5, 4)}},
+           {"dt": F(1, 16), "cal": {}, "control": {}, "state": {"p": F(-1, 2), "q": F(7, 4)}}]
+    out.append((d, {}, sensor, {}, pts, False))
+    # control only, a 3-reading sensor with all-zero noise beside a 1-reading sensor with a non-zero one, CSE off
+    s0, s1, u0 = sympy.symbols("s0 s1 u0")
+    d = gen.Definition(dt, [s0, s1], [u0], [], {s0: s0 + dt * s1 + u0, s1: s1 + dt * u0 * u0},
+                       {"tri": {"c": s0 * s1, "a": s0 + s1, "b": s0 - 3 * s1}, "one": {"z": s1 * s1 + s0}})
+    sensor = {"tri": {"a": 0.0, "b": 0, "c": 0.0}, "one": {"z": 1.5}}
+    pts = [{"dt": F(1, 2), "cal": {}, "control": {"u0": F(3, 4)}, "state": {"s0": F(1, 4), "s1": F(-3, 2)}}]
+    out.append((d, {"u0": 0}, sensor, {}, pts, False))
+    # calibration only, a 2-reading sensor (zero, non-zero) - the same sensor with CSE on
+    g, h, k = sympy.symbols("g h k")
+    d = gen.Definition(dt, [h, g], [], [k], {g: g + dt * h * k, h: h + k / 2},
+                       {"mix": {"m1": g * h + k, "m0": g - h}})
+    sensor = {"mix": {"m0": 0.0, "m1": 2.0}}
+    cal = {"k": F(-5, 8)}
+    pts = [{"dt": F(3, 8), "cal": cal, "control": {}, "state": {"g": F(9, 4), "h": F(-1, 4)}}]
+    out.append((d, {}, sensor, cal, pts, True))
+    return out
+
+
+def zero_noise_stream(ctx):
+    """every noise-covariance entry equals the configured value by name when that value is exactly zero"""
+    import random
+    prng = random.Random(20702)
+    jobs, metas = [], []
+    for i, (d, process, sensor, cal, pts, cse) in enumerate(zero_noise_units()):
+        d._kind = "ekf"
+        cfgdesc = {"def": d.describe(), "kind": "ekf", "cse": cse, "noise": {k_: repr(v_) for k_, v_ in process.items()},
+                   "sensor_noise": {k_: {r_: repr(v_) for r_, v_ in rd.items()} for k_, rd in sensor.items()},
+                   "max_dt_sec": 0.1, "innovation_filtering": None, "stream": "zero-noise"}
+        try:
+            g = cppgen.generate(d, process, sensor, cal, ctx.scratch, f"zn{i}e", cse=cse, kind="ekf", rng=prng, container="list",
+                                max_dt=0.1, filtering=None, raw_noise=True)
+        except Exception as e:
+            ctx.case(cfgdesc, True)
+            ctx.fail(f"cpp-generate-raises:ekf:zero-noise:{fk.exc_kind(e)}", f"C++ generation refuses a filter with a zero noise: {e!r}"[:300], cfgdesc)
+            continue
+        jobs.append((g, d, None))
+        metas.append((d, process, sensor, pts, cfgdesc))
+    for (d, process, sensor, pts, cfgdesc), (exe, err) in zip(metas, cppgen.build_many(jobs)):
+        if exe is None:
+            ctx.case(cfgdesc, True)
+            ctx.fail("generated-cpp-does-not-compile:ekf:zero-noise", "generated header/source do not compile: " + err[-600:], cfgdesc)
+            continue
+        ctx.count("zero_noise_unit")
+        ctx.count("zero_noise_control", sum(1 for v_ in process.values() if v_ == 0))
+        ctx.count("zero_noise_reading", sum(1 for rd in sensor.values() for v_ in rd.values() if v_ == 0))
+        check_unit(ctx, None, None, d, process, sensor, pts, exe, cfgdesc, noise_tag=":zero-noise")
+
+
 def run(ctx):
     audit = core.lean_audit("C02")
     drv = core.Driver()
@@ -301,6 +381,7 @@ def run(ctx):
         check_unit(ctx, drv, pending, dd, process, sensor, pts, exe, cfgdesc)
         translator_obligations(ctx, drv, pending, dd, g, process, sensor, cfgdesc)
     settle(ctx, drv.run(), pending)
+    zero_noise_stream(ctx)      # fixed inputs; runs after every seeded stream
     return core.finish(ctx, audit, NOTE, RULE, PARTIAL)
 
 
